@@ -228,15 +228,34 @@ Definition rb_drawable (b : rbuf) (q : cell) : bool :=
   | Some k => cell_inb k q && match rb_mask b q with None => true | Some _ => false end
   end.
 
+(* what a drawing primitive wants at one cell *)
+Inductive paint :=
+| PSet (c : Z)            (* content c *)
+| PSkip                   (* skip: the cell becomes empty *)
+| PLine (bits : Z).       (* a line segment: bits 1 north, 2 east, 4 south, 8 west *)
+
+(* line cells: content LINEBASE + the accumulated segment bits (1..15) *)
+Definition LINEBASE : Z := 200.
+Definition is_line (c : Z) : bool := (LINEBASE <? c) && (c <=? LINEBASE + 15).
+Definition line_bits (v : option (Z * Z * cell)) : Z :=
+  match v with
+  | Some (c, _, _) => if is_line c then c - LINEBASE else 0
+  | None => 0
+  end.
+
 (* A drawing primitive, per cell: [f p] for the RELATIVE cell p says what the primitive
-   wants there: None = does not touch it, Some None = skip (cell becomes empty),
-   Some (Some c) = content c.  [wid] = the window on whose behalf it is drawn. *)
-Definition rb_draw (b : rbuf) (wid : Z) (f : cell -> option (option Z)) : rbuf :=
+   wants there (None = does not touch it).  A line segment drawn on a cell that already
+   holds a line (linecell(): same pen -- there is only one pen here) merges into it;
+   anywhere else it replaces the content.  [wid] = the window on whose behalf it is drawn. *)
+Definition rb_draw (b : rbuf) (wid : Z) (f : cell -> option paint) : rbuf :=
   mkRB (rb_lines b) (rb_cols b)
        (fun q => if rb_drawable b q
                  then match f (fst q - rb_xl b, snd q - rb_xc b) with
-                      | Some (Some c) => Some (c, wid, (fst q - rb_xl b, snd q - rb_xc b))
-                      | Some None => None
+                      | Some (PSet c) => Some (c, wid, (fst q - rb_xl b, snd q - rb_xc b))
+                      | Some PSkip => None
+                      | Some (PLine bits) =>
+                        Some (LINEBASE + Z.lor (line_bits (rb_cells b q)) bits, wid,
+                              (fst q - rb_xl b, snd q - rb_xc b))
                       | None => rb_cells b q
                       end
                  else rb_cells b q)
@@ -257,23 +276,32 @@ Inductive dop :=
 | DClear.                                (* clear: erase every line of the buffer *)
 
 Definition BLANK : Z := 32.
-Definition LINECH : Z := 35.
+
+(* the segment bits hline_at / vline_at (single style, no caps) give the cell at position x
+   of a line from a to b: the start cell points towards the end, the end cell back, the
+   cells between both ways; a == b gets both; a > b touches only the two end cells *)
+Definition seg_bits (x a b : Z) (fwd back : Z) : Z :=
+  Z.lor (if x =? a then fwd else 0)
+        (Z.lor (if x =? b then back else 0)
+               (if (a <? x) && (x <? b) then Z.lor fwd back else 0)).
 
 Definition dop_cells (app : Z -> Z -> Z -> Z) (id : Z) (handed : rect) (nl nc : Z) (o : dop)
-  (p : cell) : option (option Z) :=
+  (p : cell) : option paint :=
   let (y, x) := p in
   match o with
-  | DPaint => if cell_inb handed p then Some (Some (app id y x)) else None
-  | DText l c n => if (y =? l) && (c <=? x) && (x <? c + n) then Some (Some (app id y x)) else None
-  | DErase l c n => if (y =? l) && (c <=? x) && (x <? c + n) then Some (Some BLANK) else None
-  | DChar l c => if (y =? l) && (x =? c) then Some (Some (app id y x)) else None
+  | DPaint => if cell_inb handed p then Some (PSet (app id y x)) else None
+  | DText l c n => if (y =? l) && (c <=? x) && (x <? c + n) then Some (PSet (app id y x)) else None
+  | DErase l c n => if (y =? l) && (c <=? x) && (x <? c + n) then Some (PSet BLANK) else None
+  | DChar l c => if (y =? l) && (x =? c) then Some (PSet (app id y x)) else None
   | DHline l c1 c2 =>
-    if (y =? l) && ((x =? c1) || (x =? c2) || ((c1 <? x) && (x <? c2))) then Some (Some LINECH) else None
+    if (y =? l) && ((x =? c1) || (x =? c2) || ((c1 <? x) && (x <? c2)))
+    then Some (PLine (seg_bits x c1 c2 2 8)) else None
   | DVline l1 l2 c =>
-    if (x =? c) && ((y =? l1) || (y =? l2) || ((l1 <? y) && (y <? l2))) then Some (Some LINECH) else None
-  | DEraseRect r => if cell_inb r p then Some (Some BLANK) else None
-  | DSkip l c n => if (y =? l) && (c <=? x) && (x <? c + n) then Some None else None
-  | DClear => if (0 <=? y) && (y <? nl) && (0 <=? x) && (x <? nc) then Some (Some BLANK) else None
+    if (x =? c) && ((y =? l1) || (y =? l2) || ((l1 <? y) && (y <? l2)))
+    then Some (PLine (seg_bits y l1 l2 4 1)) else None
+  | DEraseRect r => if cell_inb r p then Some (PSet BLANK) else None
+  | DSkip l c n => if (y =? l) && (c <=? x) && (x <? c + n) then Some PSkip else None
+  | DClear => if (0 <=? y) && (y <? nl) && (0 <=? x) && (x <? nc) then Some (PSet BLANK) else None
   end.
 
 Definition run_prog (app : Z -> Z -> Z -> Z) (prog : list dop) (id : Z) (handed : rect) (b : rbuf) : rbuf :=
